@@ -36,40 +36,78 @@ Definition stops (P : ascii -> bool) (x : text) : Prop :=
 Definition fstop (x : text) : Prop :=
   match x with [] => True | c :: _ => follow_char c = true end.
 
+Definition forall_bool (f : bool -> bool) : bool := (f true && f false)%bool.
+Definition forall_ascii (P : ascii -> bool) : bool :=
+  forall_bool (fun b0 => forall_bool (fun b1 => forall_bool (fun b2 => forall_bool (fun b3 =>
+  forall_bool (fun b4 => forall_bool (fun b5 => forall_bool (fun b6 => forall_bool (fun b7 =>
+    P (Ascii b0 b1 b2 b3 b4 b5 b6 b7))))))))).
+
+Lemma forall_bool_spec : forall f, forall_bool f = true -> forall b, f b = true.
+Proof. intros f H b. unfold forall_bool in H. apply andb_true_iff in H as [H1 H2]. now destruct b. Qed.
+
+Lemma forall_ascii_spec : forall P, forall_ascii P = true -> forall c, P c = true.
+Proof.
+  intros P H [b0 b1 b2 b3 b4 b5 b6 b7]. unfold forall_ascii in H.
+  pose proof (forall_bool_spec _ H b0) as H0. cbv beta in H0.
+  pose proof (forall_bool_spec _ H0 b1) as H1. cbv beta in H1.
+  pose proof (forall_bool_spec _ H1 b2) as H2. cbv beta in H2.
+  pose proof (forall_bool_spec _ H2 b3) as H3. cbv beta in H3.
+  pose proof (forall_bool_spec _ H3 b4) as H4. cbv beta in H4.
+  pose proof (forall_bool_spec _ H4 b5) as H5. cbv beta in H5.
+  pose proof (forall_bool_spec _ H5 b6) as H6. cbv beta in H6.
+  exact (forall_bool_spec _ H6 b7).
+Qed.
+
+(* A c = true -> B c = false for all 256 characters, by computation *)
+Lemma chars_excl : forall A B : ascii -> bool,
+  forall_ascii (fun c => implb (A c) (negb (B c))) = true -> forall c, A c = true -> B c = false.
+Proof.
+  intros A B H c Ha. pose proof (forall_ascii_spec _ H c) as Hc. cbv beta in Hc.
+  rewrite Ha in Hc. cbn in Hc. now apply negb_true_iff.
+Qed.
+Lemma chars_incl : forall A B : ascii -> bool,
+  forall_ascii (fun c => implb (A c) (B c)) = true -> forall c, A c = true -> B c = true.
+Proof.
+  intros A B H c Ha. pose proof (forall_ascii_spec _ H c) as Hc. cbv beta in Hc.
+  now rewrite Ha in Hc.
+Qed.
+Ltac excl A B := exact (chars_excl A B ltac:(vm_compute; reflexivity)).
+Ltac incl A B := exact (chars_incl A B ltac:(vm_compute; reflexivity)).
+
 Lemma follow_not_idrest : forall c, follow_char c = true -> is_idrest c = false.
-Proof. intros c; all_chars c; cbn; intros H; try reflexivity; discriminate H. Qed.
+Proof. excl follow_char is_idrest. Qed.
 Lemma follow_not_digit : forall c, follow_char c = true -> is_digit c = false.
-Proof. intros c; all_chars c; cbn; intros H; try reflexivity; discriminate H. Qed.
+Proof. excl follow_char is_digit. Qed.
 Lemma follow_not_dot : forall c, follow_char c = true -> Ascii.eqb c "." = false.
-Proof. intros c; all_chars c; cbn; intros H; try reflexivity; discriminate H. Qed.
+Proof. excl follow_char (fun c => Ascii.eqb c "."). Qed.
 Lemma follow_not_x : forall c, follow_char c = true -> Ascii.eqb c "x" = false.
-Proof. intros c; all_chars c; cbn; intros H; try reflexivity; discriminate H. Qed.
+Proof. excl follow_char (fun c => Ascii.eqb c "x"). Qed.
 Lemma ws_follow : forall c, is_ws c = true -> follow_char c = true.
 Proof. intros c H. unfold follow_char. now rewrite H. Qed.
 Lemma idstart_not_ws : forall c, is_idstart c = true -> is_ws c = false.
-Proof. intros c; all_chars c; cbn; intros H; try reflexivity; discriminate H. Qed.
+Proof. excl is_idstart is_ws. Qed.
 Lemma idstart_idrest : forall c, is_idstart c = true -> is_idrest c = true.
-Proof. intros c; all_chars c; cbn; intros H; try reflexivity; discriminate H. Qed.
+Proof. incl is_idstart is_idrest. Qed.
 Lemma idrest_not_ws : forall c, is_idrest c = true -> is_ws c = false.
-Proof. intros c; all_chars c; cbn; intros H; try reflexivity; discriminate H. Qed.
+Proof. excl is_idrest is_ws. Qed.
 Lemma idrest_not_dot : forall c, is_idrest c = true -> Ascii.eqb "." c = false.
-Proof. intros c; all_chars c; cbn; intros H; try reflexivity; discriminate H. Qed.
+Proof. excl is_idrest (fun c => Ascii.eqb "." c). Qed.
 Lemma idrest_not_quote : forall c, is_idrest c = true -> is_quote c = false.
-Proof. intros c; all_chars c; cbn; intros H; try reflexivity; discriminate H. Qed.
+Proof. excl is_idrest is_quote. Qed.
 Lemma ws_not_quote : forall c, is_ws c = true -> is_quote c = false.
-Proof. intros c; all_chars c; cbn; intros H; try reflexivity; discriminate H. Qed.
+Proof. excl is_ws is_quote. Qed.
 Lemma idstart_not_digit : forall c, is_idstart c = true -> is_digit c = false.
-Proof. intros c; all_chars c; cbn; intros H; try reflexivity; discriminate H. Qed.
+Proof. excl is_idstart is_digit. Qed.
 Lemma digit_not_ws : forall c, is_digit c = true -> is_ws c = false.
-Proof. intros c; all_chars c; cbn; intros H; try reflexivity; discriminate H. Qed.
+Proof. excl is_digit is_ws. Qed.
 Lemma digit_not_quote : forall c, is_digit c = true -> is_quote c = false.
-Proof. intros c; all_chars c; cbn; intros H; try reflexivity; discriminate H. Qed.
+Proof. excl is_digit is_quote. Qed.
 Lemma digit_not_b : forall c, is_digit c = true -> Ascii.eqb c "b" = false.
-Proof. intros c; all_chars c; cbn; intros H; try reflexivity; discriminate H. Qed.
+Proof. excl is_digit (fun c => Ascii.eqb c "b"). Qed.
 Lemma digit_not_x : forall c, is_digit c = true -> Ascii.eqb c "x" = false.
-Proof. intros c; all_chars c; cbn; intros H; try reflexivity; discriminate H. Qed.
+Proof. excl is_digit (fun c => Ascii.eqb c "x"). Qed.
 Lemma digit_not_dot : forall c, is_digit c = true -> Ascii.eqb c "." = false.
-Proof. intros c; all_chars c; cbn; intros H; try reflexivity; discriminate H. Qed.
+Proof. excl is_digit (fun c => Ascii.eqb c "."). Qed.
 
 Lemma eqb_false_of : forall (P : ascii -> bool) a c, P a = true -> P c = false -> Ascii.eqb a c = false.
 Proof.
@@ -214,3 +252,264 @@ Qed.
 Lemma field_specifier_none : forall w c x, ws_only w -> is_ws c = false -> is_idstart c = false ->
   field_specifier (w ++ c :: x) = None.
 Proof. intros. unfold field_specifier. now rewrite identifier_none. Qed.
+
+(* ------------------------------------------------------------------ *)
+(* operators and connectives *)
+
+Definition not_eq_head (x : text) : Prop :=
+  match x with [] => True | c :: _ => Ascii.eqb "=" c = false end.
+
+Lemma operator_ok : forall o w x, ws_only w -> not_eq_head x ->
+  operator (w ++ print_op o ++ x) = Some (o, x).
+Proof.
+  intros o w x Hw Hx. unfold operator. rewrite skip_ws_app by exact Hw.
+  destruct o; cbn; try reflexivity.
+  - destruct x as [|c x]; [reflexivity|]. cbn in Hx. now rewrite Hx.
+  - destruct x as [|c x]; [reflexivity|]. cbn in Hx. now rewrite Hx.
+Qed.
+
+Lemma connective_and : forall w x, ws_only w -> connective (w ++ "&" :: "&" :: x) = Some (true, x).
+Proof. intros w x Hw. unfold connective. now rewrite skip_ws_app. Qed.
+
+Lemma connective_or : forall w x, ws_only w -> connective (w ++ "|" :: "|" :: x) = Some (false, x).
+Proof. intros w x Hw. unfold connective. now rewrite skip_ws_app. Qed.
+
+(* what may follow a term / an expression of a rendering *)
+Definition ft (x : text) : Prop :=
+  skip_ws x = [] \/ (exists z, skip_ws x = ")" :: z) \/
+  (exists z, skip_ws x = "&" :: "&" :: z) \/ (exists z, skip_ws x = "|" :: "|" :: z).
+Definition fe (x : text) : Prop := skip_ws x = [] \/ (exists z, skip_ws x = ")" :: z).
+
+Lemma fe_ft : forall x, fe x -> ft x.
+Proof. intros x [H|H]; [left|right; left]; exact H. Qed.
+
+Lemma ft_fstop : forall x, ft x -> fstop x.
+Proof.
+  intros [|c x] H; [exact I|]. cbn. destruct (is_ws c) eqn:E; [now apply ws_follow|].
+  unfold ft in H. rewrite skip_ws_cons in H by exact E.
+  destruct H as [H|[[z H]|[[z H]|[z H]]]]; inversion H; reflexivity.
+Qed.
+
+Lemma fstop_idrest : forall x, fstop x -> stops is_idrest x.
+Proof. intros [|c x] H; [exact I|]. cbn in *. now apply follow_not_idrest. Qed.
+
+Lemma ft_sel_stop : forall x, ft x -> sel_stop x.
+Proof.
+  intros x H. split; [now apply fstop_idrest, ft_fstop|].
+  unfold tok. destruct H as [H|[[z H]|[[z H]|[z H]]]]; rewrite H; reflexivity.
+Qed.
+
+Lemma ft_ws : forall w x, ws_only w -> ft x -> ft (w ++ x).
+Proof. intros w x Hw H. unfold ft in *. now rewrite skip_ws_app. Qed.
+
+Lemma connective_none : forall x, fe x -> connective x = None.
+Proof. intros x [H|[z H]]; unfold connective; rewrite H; reflexivity. Qed.
+
+(* ------------------------------------------------------------------ *)
+(* decimal numbers *)
+
+Lemma digit_cases : forall d : N, (d < 10)%N ->
+  d = 0%N \/ d = 1%N \/ d = 2%N \/ d = 3%N \/ d = 4%N \/ d = 5%N \/ d = 6%N \/ d = 7%N \/ d = 8%N \/ d = 9%N.
+Proof. intros d H. lia. Qed.
+
+Lemma digit_is_digit : forall d, (d < 10)%N -> is_digit (digit d) = true.
+Proof. intros d H. destruct (digit_cases d H) as [->|[->|[->|[->|[->|[->|[->|[->|[->| ->]]]]]]]]]; reflexivity. Qed.
+
+Lemma dig_digit : forall d, (d < 10)%N -> dig (digit d) = d.
+Proof. intros d H. destruct (digit_cases d H) as [->|[->|[->|[->|[->|[->|[->|[->|[->| ->]]]]]]]]]; reflexivity. Qed.
+
+Lemma digit_nonzero : forall d, (0 < d < 10)%N -> Ascii.eqb (digit d) "0" = false.
+Proof.
+  intros d [H0 H]. destruct (digit_cases d H) as [->|[->|[->|[->|[->|[->|[->|[->|[->| ->]]]]]]]]]; try reflexivity. lia.
+Qed.
+
+Lemma dval_snoc : forall l c, dval (l ++ [c]) = (10 * dval l + dig c)%N.
+Proof. intros l c. unfold dval. now rewrite fold_left_app. Qed.
+
+Lemma pN_acc : forall f n acc, pN f n acc = pN f n [] ++ acc.
+Proof.
+  induction f as [|f IH]; intros n acc; [reflexivity|].
+  cbn [pN]. destruct (n <? 10)%N; [reflexivity|].
+  rewrite (IH _ (digit (n mod 10) :: acc)), (IH _ [digit (n mod 10)]).
+  now rewrite <- app_assoc.
+Qed.
+
+Lemma pN_S : forall f n, pN (S f) n [] =
+  if (n <? 10)%N then [digit (n mod 10)] else pN f (n / 10) [] ++ [digit (n mod 10)].
+Proof. intros f n. cbn [pN]. destruct (n <? 10)%N; [reflexivity|]. apply pN_acc. Qed.
+
+Lemma pN_digits : forall f n, forallb is_digit (pN f n []) = true.
+Proof.
+  induction f as [|f IH]; intros n; [reflexivity|]. rewrite pN_S.
+  assert (Hd : is_digit (digit (n mod 10)) = true) by (apply digit_is_digit; apply N.mod_lt; lia).
+  destruct (n <? 10)%N; cbn; [now rewrite Hd|].
+  rewrite forallb_app, IH. cbn. now rewrite Hd.
+Qed.
+
+Lemma pN_val : forall f n, (n < 2 ^ N.of_nat f)%N -> dval (pN f n []) = n.
+Proof.
+  induction f as [|f IH]; intros n H.
+  - cbn in H. assert (n = 0%N) by lia. subst. reflexivity.
+  - rewrite pN_S. destruct (n <? 10)%N eqn:E.
+    + apply N.ltb_lt in E. cbn. rewrite dig_digit by (apply N.mod_lt; lia).
+      rewrite N.mod_small by exact E. reflexivity.
+    + apply N.ltb_ge in E.
+      assert (Hb : (n / 10 < 2 ^ N.of_nat f)%N).
+      { rewrite Nat2N.inj_succ, N.pow_succ_r' in H.
+        assert (n / 10 <= n / 2)%N by (apply N.div_le_compat_l; lia).
+        assert (n / 2 < 2 ^ N.of_nat f)%N by (apply N.div_lt_upper_bound; lia). lia. }
+      rewrite dval_snoc, IH by exact Hb. rewrite dig_digit by (apply N.mod_lt; lia).
+      pose proof (N.div_mod n 10). lia.
+Qed.
+
+Lemma pN_head : forall f n, (0 < n)%N -> (n < 2 ^ N.of_nat f)%N ->
+  exists c r, pN f n [] = c :: r /\ Ascii.eqb c "0" = false.
+Proof.
+  induction f as [|f IH]; intros n H0 H.
+  - cbn in H. lia.
+  - rewrite pN_S. destruct (n <? 10)%N eqn:E.
+    + apply N.ltb_lt in E. exists (digit (n mod 10)), []. split; [reflexivity|].
+      apply digit_nonzero. rewrite N.mod_small by exact E. lia.
+    + apply N.ltb_ge in E.
+      destruct (IH (n / 10)%N) as (c & r & E1 & E2).
+      * assert (1 <= n / 10)%N by (apply N.div_le_lower_bound; lia). lia.
+      * rewrite Nat2N.inj_succ, N.pow_succ_r' in H.
+        assert (n / 10 <= n / 2)%N by (apply N.div_le_compat_l; lia).
+        assert (n / 2 < 2 ^ N.of_nat f)%N by (apply N.div_lt_upper_bound; lia). lia.
+      * rewrite E1. exists c, (r ++ [digit (n mod 10)]). split; [reflexivity|exact E2].
+Qed.
+
+Lemma print_N_fuel : forall n, (n < 2 ^ N.of_nat (S (N.to_nat (N.log2 n))))%N.
+Proof.
+  intros n. rewrite Nat2N.inj_succ, N2Nat.id.
+  destruct n as [|p]; [cbn; lia|]. apply N.log2_spec. lia.
+Qed.
+
+Lemma print_N_digits : forall n, forallb is_digit (print_N n) = true.
+Proof. intros. apply pN_digits. Qed.
+
+Lemma print_N_val : forall n, dval (print_N n) = n.
+Proof. intros. apply pN_val, print_N_fuel. Qed.
+
+Lemma print_N_cons : forall n, exists c r, print_N n = c :: r /\ is_digit c = true.
+Proof.
+  intros n. pose proof (print_N_digits n) as H. unfold print_N in *. rewrite pN_S in *.
+  destruct (n <? 10)%N.
+  - eexists _, _. split; [reflexivity|]. cbn in H. now apply andb_true_iff in H as [H _].
+  - destruct (pN _ _ []) as [|c r] eqn:E; cbn in *.
+    + eexists _, _. split; [reflexivity|]. now apply andb_true_iff in H as [H _].
+    + eexists _, _. split; [reflexivity|]. now apply andb_true_iff in H as [H _].
+Qed.
+
+Lemma eval_dec_int : forall n, eval_dec (print_N n) None = Some (mkNum KI (Z.of_N n) 1).
+Proof.
+  intros n. unfold eval_dec. rewrite print_N_val.
+  destruct (N.eq_dec n 0) as [->|Hn]; [reflexivity|].
+  destruct (pN_head _ n ltac:(lia) (print_N_fuel n)) as (c & r & E1 & E2).
+  unfold print_N. rewrite E1. destruct r; [reflexivity|]. now rewrite E2.
+Qed.
+
+Definition num_stop (x : text) : Prop :=
+  match x with [] => True | c :: _ => is_digit c = false /\ Ascii.eqb c "." = false end.
+
+Lemma fstop_num_stop : forall x, fstop x -> num_stop x.
+Proof. intros [|c x] H; [exact I|]. cbn in *. split; [now apply follow_not_digit|now apply follow_not_dot]. Qed.
+
+Lemma lex_dec_int : forall ds x, forallb is_digit ds = true -> ds <> [] -> num_stop x ->
+  lex_dec (ds ++ x) = Some (ds, None, x).
+Proof.
+  intros ds x Hd Hn Hx. unfold lex_dec. rewrite span_app; auto.
+  - destruct ds; [congruence|]. destruct x as [|c x]; [reflexivity|]. cbn in Hx. destruct Hx as [_ Hx]. now rewrite Hx.
+  - destruct x; cbn in *; tauto.
+Qed.
+
+Lemma lex_dec_frac : forall ds fs x, forallb is_digit ds = true -> ds <> [] ->
+  forallb is_digit fs = true -> fs <> [] -> stops is_digit x ->
+  lex_dec (ds ++ "." :: fs ++ x) = Some (ds, Some fs, x).
+Proof.
+  intros ds fs x Hd Hn Hf Hfn Hx. unfold lex_dec. rewrite span_app; auto; [|reflexivity].
+  destruct ds; [congruence|]. cbn [Ascii.eqb Bool.eqb]. cbn. rewrite span_app; auto.
+  destruct fs; [congruence|reflexivity].
+Qed.
+
+Lemma fixd_digits : forall j v, forallb is_digit (fixd j v) = true.
+Proof.
+  induction j as [|j IH]; intros v; [reflexivity|]. cbn [fixd].
+  rewrite forallb_app, IH. cbn. rewrite digit_is_digit; [reflexivity|]. apply N.mod_lt. lia.
+Qed.
+
+Lemma fixd_length : forall j v, length (fixd j v) = j.
+Proof.
+  induction j as [|j IH]; intros v; [reflexivity|]. cbn [fixd]. rewrite app_length, IH. cbn. lia.
+Qed.
+
+Lemma num_same_eq : forall x y, num_same x y = true -> x = y.
+Proof.
+  intros [k1 n1 d1] [k2 n2 d2] H. unfold num_same in H. cbn in H.
+  apply andb_true_iff in H as [H H3]. apply andb_true_iff in H as [H1 H2].
+  apply Z.eqb_eq in H2. apply Pos.eqb_eq in H3. subst.
+  destruct k1, k2; try discriminate; reflexivity.
+Qed.
+
+Lemma find_frac_spec : forall fuel j x ds fs, 1 <= j -> find_frac fuel j x = Some (ds, fs) ->
+  forallb is_digit ds = true /\ ds <> [] /\ forallb is_digit fs = true /\ fs <> [] /\
+  eval_dec ds (Some fs) = Some x.
+Proof.
+  induction fuel as [|fuel IH]; intros j x ds fs Hj H; [discriminate|].
+  cbn [find_frac] in H.
+  set (n := round_div _ _) in H.
+  destruct (eval_dec (print_N (n / N.pos (pow10 j))) (Some (fixd j (n mod N.pos (pow10 j))))) as [y|] eqn:E.
+  - destruct (num_same x y) eqn:Es.
+    + inversion H; subst ds fs. apply num_same_eq in Es. subst y.
+      repeat split.
+      * apply print_N_digits.
+      * destruct (print_N_cons (n / N.pos (pow10 j))) as (c & r & -> & _). discriminate.
+      * apply fixd_digits.
+      * intros Hnil. apply (f_equal (@length _)) in Hnil. rewrite fixd_length in Hnil. cbn in Hnil. lia.
+      * exact E.
+    + apply (IH (S j)); [lia|exact H].
+  - apply (IH (S j)); [lia|exact H].
+Qed.
+
+(* the numbers that can be elements of a literal: non-negative ints and printable floats *)
+Definition wf_elem (x : num) : bool := (wf_int x || wf_float x)%bool.
+
+Lemma wf_int_inv : forall x, wf_int x = true -> x = mkNum KI (Z.of_N (Z.to_N (nnum x))) 1 /\ nkind x = KI.
+Proof.
+  intros [k n d] H. unfold wf_int in H. cbn [nkind nnum nden] in *.
+  apply andb_true_iff in H as [H H3]. apply andb_true_iff in H as [H1 H2].
+  apply Pos.eqb_eq in H3. apply Z.leb_le in H2. subst d. rewrite Z2N.id by exact H2.
+  destruct k; try discriminate. split; reflexivity.
+Qed.
+
+Lemma print_num_elem : forall x, wf_elem x = true ->
+  exists c r, print_num x = c :: r /\ is_digit c = true.
+Proof.
+  intros x H. unfold wf_elem in H. apply orb_true_iff in H as [H|H].
+  - destruct (wf_int_inv x H) as [_ Hk]. unfold print_num. rewrite Hk. apply print_N_cons.
+  - unfold wf_float in H. apply andb_true_iff in H as [Hk H].
+    unfold print_num. destruct (nkind x); try discriminate.
+    destruct (float_digits x) as [[ds fs]|] eqn:E; [|discriminate].
+    apply find_frac_spec in E as (H1 & H2 & _); [|lia].
+    destruct ds as [|c ds]; [congruence|]. cbn in H1. apply andb_true_iff in H1 as [H1 _].
+    exists c, (ds ++ "." :: fs). split; [reflexivity|exact H1].
+Qed.
+
+Lemma number_ok : forall x y, wf_elem x = true -> fstop y -> number (print_num x ++ y) = Some (x, y).
+Proof.
+  intros x y H Hy. unfold wf_elem in H. apply orb_true_iff in H as [H|H].
+  - destruct (wf_int_inv x H) as [Ex Hk]. unfold print_num. rewrite Hk. unfold number.
+    destruct (print_N_cons (Z.to_N (nnum x))) as (c & r & Ec & _).
+    rewrite lex_dec_int.
+    + rewrite eval_dec_int. now rewrite <- Ex.
+    + apply print_N_digits.
+    + rewrite Ec. discriminate.
+    + now apply fstop_num_stop.
+  - unfold wf_float in H. apply andb_true_iff in H as [Hk H].
+    unfold print_num. destruct (nkind x); try discriminate.
+    destruct (float_digits x) as [[ds fs]|] eqn:E; [|discriminate].
+    apply find_frac_spec in E as (H1 & H2 & H3 & H4 & H5); [|lia].
+    unfold number. rewrite <- app_assoc. cbn [app]. rewrite lex_dec_frac; auto.
+    + now rewrite H5.
+    + destruct y as [|c y]; [exact I|]. cbn in *. now apply follow_not_digit.
+Qed.
